@@ -409,6 +409,26 @@ theorem returned_responses (N : NumOps) (persist : Bool) (sink : FileSink)
     have hq' : t.Perm queues.flatten := hq
     simpa [Run.init] using hr.trans (hq'.map _)
 
+/-- and exactly, not only as a multiset: under `PersistResponseInMemory` worker `w` hands back, in the order
+of its queue, the amended version of each of its responses — the same vectors for every schedule -/
+theorem returned_in_query_order (N : NumOps) (sink : FileSink) (queues : List (List Json))
+    (schedule : List Nat) (hp : sink.poisoned = false)
+    (hw : ∀ r ∈ queues.flatten, Writable N sink.format r)
+    (hdone : ((Run.init sink queues).exec N true schedule).done = true) :
+    ((Run.init sink queues).exec N true schedule).returned
+      = queues.map (fun q => q.map (postOf N sink.format)) := by
+  have hinv := exec_handBack N schedule (Run.init sink queues) hp hw (by simp [Run.init])
+  obtain ⟨t, h⟩ := exec_progress N true schedule (Run.init sink queues) hp hw (by simp [Run.init])
+  have hnil : ∀ q ∈ ((Run.init sink queues).exec N true schedule).queues, q = [] := by
+    intro q hq
+    have := hdone
+    unfold Run.done at this
+    rw [List.all_eq_true] at this
+    simpa using this q hq
+  rw [handBack_of_all_nil N _ _ _ (by rw [h.retWidth, h.width]; simp [Run.init]) hnil] at hinv
+  rw [hinv]
+  exact handBack_init N sink.format queues
+
 /-- non-vacuity: complete schedules exist for every batch shape that is exercised below, and different
 schedules give different files with the same records -/
 example :
@@ -422,6 +442,16 @@ example :
     (run [0, 1, 0]).sink.contents ≠ (run [1, 0, 0]).sink.contents ∧
     (run [0, 1, 0]).sink.contents.count '\n' = 3 := by
   decide
+
+/-! ## 5a. Combined sinks -/
+
+/-- a Combined policy (flattened depth-first) hands an object response to every member in turn; each member
+file gets exactly one record and one count, and the response stays an object (so the next one can be
+written too).  Member `i` writes the response as members `< i` left it. -/
+theorem combined_sink_appends_one_record_to_every_member (N : NumOps) (ss : List FileSink) (r : Json)
+    (hp : ∀ s ∈ ss, s.poisoned = false) (hr : r.isObject = true) :
+    ∃ ss' r', writeCombined N ss r = .ok ss' r' ∧ r'.isObject = true ∧ AppendedOne ss ss' :=
+  writeCombined_objects N ss r hp hr
 
 /-! ## 5b. `CompassApp::run`: every response handed back has its record — unless it failed input processing -/
 
